@@ -11,6 +11,7 @@ import Gedcom.Lemmas.Legal
 import Gedcom.Props.C01
 import Gedcom.Lemmas.Regex
 import Gedcom.Lemmas.MultiLineLegal
+import Gedcom.Lemmas.RegexSound
 namespace Gedcom.C02
 open Gedcom Gedcom.Dec
 
@@ -293,6 +294,16 @@ theorem parseLine_uses_submatches :
 theorem parseLine_is_the_source_regexp (l : Str) (h : LF ∉ l) :
     (Regex.find Generated.lineRegex l).map Regex.fields = parseLine l := by
   rw [line_pattern_is_expected.2.1, Regex.find_expected l h, Regex.fields_lineRes]
+
+/-- **The matcher used above decides the declarative language of the fragment**: the
+    backtracking semantics answers "match" exactly when some prefix of the text is in the
+    language of the pattern given by the usual inductive rules (`Regex.Matches`; for the line
+    pattern, which ends in `$`, the whole text).  So acceptance by `parseLine` is acceptance by
+    the source's regular expression in the textbook sense; what remains trusted about the
+    semantics is only which submatches leftmost-first priority reports. -/
+theorem line_pattern_acceptance (l : Str) :
+    (Regex.find Generated.lineRegex l).isSome = true ↔ ∃ r, Regex.Matches Generated.lineRegex l r :=
+  Regex.find_isSome_iff Generated.lineRegex l
 
 /-- the hypothesis of `parseLine_is_the_source_regexp` holds for every line the decoder's line
     reader produces, whatever the input bytes -/
